@@ -250,6 +250,13 @@ func (b builder) buildHeaderKeys(md metadata.MD) map[string]string {
 	return kvMap
 }
 
+// Keys never contain an unescaped ',' or '=', values never an unescaped '=':
+// the string can be split back into the map unambiguously.
+var (
+	keyEscaper   = strings.NewReplacer(`\`, `\\`, `,`, `\,`, `=`, `\=`)
+	valueEscaper = strings.NewReplacer(`\`, `\\`, `=`, `\=`)
+)
+
 func mapToString(kv map[string]string) string {
 	keys := make([]string, 0, len(kv))
 	for k := range kv {
@@ -261,7 +268,7 @@ func mapToString(kv map[string]string) string {
 		if i != 0 {
 			fmt.Fprint(&sb, ",")
 		}
-		fmt.Fprintf(&sb, "%s=%s", k, kv[k])
+		fmt.Fprintf(&sb, "%s=%s", keyEscaper.Replace(k), valueEscaper.Replace(kv[k]))
 	}
 	return sb.String()
 }
